@@ -24,7 +24,9 @@ RULE = ("random ADMGs with 1-5 nodes (quick: mostly <=4) x conjunctions of 1-4 c
         "observed factually and intervened on in a world (shared_parent), two copies of an untouched variable (two_copies), 2-3 worlds that "
         "agree on do(ancestor) and differ in irrelevant interventions so that copies merge with EACH OTHER in the world-pair loop "
         "(world_family), a parent intervened in one world and observed in another (mirrored_parent), both copies of a parent observed "
-        "(both_observed); the paper examples (Shpitser-Pearl "
+        "(both_observed); 8% of the random stream are events that USE three counterfactual worlds, 8% 'twin' events (two worlds sharing 2-3 base "
+        "variables), 30% of the random graphs are stored in a shuffled (non-topological) insertion order, edge-less random graphs are mostly "
+        "re-drawn; thorough adds 400 six-node graphs with binary variables and up to 5 conjuncts; the paper examples (Shpitser-Pearl "
         "fig. 9, Tikka fig. 2) and all past witnesses first; a malformed stream (cyclic graph, event variable outside "
         "the graph). Every case is run under every iteration order of the worlds. A case is non-trivial when the event "
         "has >= 2 conjuncts, at least one counterfactual world, the graph has an edge, and the construction merged at "
@@ -88,6 +90,12 @@ def shared_parent_case(rng: random.Random):
         nxt += 1
         nodes.append(z)
         di += [[z, c] for c in kids if rng.random() < 0.7] or [[z, kids[0]]]
+    z2 = None
+    if z is not None and rng.random() < 0.3:      # a third parent of the children (three differing parent pairs at merge time)
+        z2 = nxt
+        nxt += 1
+        nodes.append(z2)
+        di += [[z2, c] for c in kids]
     y = None
     if rng.random() < 0.5:
         y = nxt
@@ -103,6 +111,11 @@ def shared_parent_case(rng: random.Random):
     if z is not None and rng.random() < 0.7:
         world.append((z, rng.choice(["m", "p"])))
     ev = [[K.mkvar(x), sx]]
+    if z2 is not None:
+        s2 = rng.choice(["m", "p"])
+        world.append((z2, s2))
+        if rng.random() < 0.7 and not any(z2 in e for e in bi):    # observed at the value it is set to (or, rarely, at the other one)
+            ev.append([K.mkvar(z2), s2 if rng.random() < 0.8 else ("p" if s2 == "m" else "m")])
     targets = kids if y is None or rng.random() < 0.5 else [y] + [c for c in kids if rng.random() < 0.5]
     for t in targets:
         ev.append([K.mkvar(t, world), rng.choice(["m", "p"])])
@@ -298,6 +311,57 @@ def both_observed_case(rng: random.Random):
     return {"g": {"nodes": nodes, "di": di, "bi": bi}, "event": K.sort_event(ev), "seed": rng.randrange(1 << 30)}
 
 
+def three_world_event(rng: random.Random, g):
+    """an event that USES three counterfactual worlds: one conjunct per world first (then up to two more, possibly factual)"""
+    nodes = G.all_nodes(g)
+    worlds = []
+    for _ in range(12):
+        w = K.rand_world(rng, nodes)
+        if worlds and rng.random() < 0.4:     # same variables as an earlier world, other values / one more variable
+            w0 = rng.choice(worlds)
+            w = tuple(sorted({n: ("p" if rng.random() < 0.5 else "m") for n, _ in w0}.items()))
+            if rng.random() < 0.4:
+                extra = [n for n in nodes if n not in {a for a, _ in w}]
+                if extra:
+                    w = tuple(sorted(w + ((rng.choice(extra), rng.choice(["m", "p"])),)))
+        if w and w not in worlds:
+            worlds.append(w)
+        if len(worlds) == 3:
+            break
+    ev = {}
+    for w in worlds + [rng.choice(worlds + [()]) for _ in range(rng.choice([0, 1, 1, 2]))]:
+        cand = [v_ for v_ in nodes if v_ not in {n for n, _ in w}] or nodes
+        var = K.mkvar(rng.choice(cand), w)
+        ev.setdefault(C.enc(var), [var, "p" if rng.random() < 0.35 else "m"])
+    return K.sort_event(list(ev.values()))
+
+
+def twin_event(rng: random.Random, g):
+    """'twin' events: two worlds (a counterfactual one and the factual world / a second counterfactual world) that share two or
+    three base variables: V@w and V@w' for every V of a set B, equal or different values"""
+    nodes = G.all_nodes(g)
+    w = K.rand_world(rng, nodes)
+    r = rng.random()
+    if r < 0.5:
+        w2 = ()
+    elif r < 0.75:
+        w2 = tuple((n, "p" if s_ == "m" else "m") if rng.random() < 0.7 else (n, s_) for n, s_ in w)
+    else:
+        w2 = K.rand_world(rng, nodes)
+    if w2 == w:
+        w2 = ()
+    touched = {n for n, _ in w} | {n for n, _ in w2}
+    pool = [v_ for v_ in nodes if v_ not in touched] or nodes
+    base = rng.sample(pool, min(len(pool), rng.choice([2, 2, 3])))
+    ev = {}
+    for b in base:
+        val = "p" if rng.random() < 0.35 else "m"
+        for ww in (w, w2):
+            var = K.mkvar(b, ww)
+            ev.setdefault(C.enc(var), [var, val if rng.random() < 0.6 else ("p" if val == "m" else "m")])
+    return K.sort_event(list(ev.values()))
+
+
 def cases(rng: random.Random, tier: str):
     out = [dict(c, seed=1000 + i) for i, c in enumerate(CORPUS)]
     out += K.load_corpus("C18")
@@ -311,7 +375,19 @@ def cases(rng: random.Random, tier: str):
     for _ in range(n):
         big = rng.random() < (0.15 if tier == "quick" else 0.3)
         g = K.rand_admg(rng, 1, 5 if big else 4)
-        ev = K.rand_event(rng, g, max_worlds=3, max_items=4)
+        for _k in range(3):      # about a third of the random graphs had no edge at all: most of those are drawn again
+            if g["di"] or g["bi"] or rng.random() < 0.25:
+                break
+            g = K.rand_admg(rng, 2, 5 if big else 4)
+        r3 = rng.random()
+        if r3 < 0.08 and len(G.all_nodes(g)) >= 2:
+            ev = three_world_event(rng, g)
+        elif r3 < 0.16 and len(G.all_nodes(g)) >= 2:
+            ev = twin_event(rng, g)
+        else:
+            ev = K.rand_event(rng, g, max_worlds=3, max_items=4)
+        if rng.random() < 0.3:      # graphs stored in a NON-topological insertion order (seeded/C07c walks graph.nodes())
+            g = dict(g, nodes=rng.sample(G.all_nodes(g), len(G.all_nodes(g))))
         c = {"g": g, "event": ev, "seed": rng.randrange(1 << 30)}
         r = rng.random()
         if r < 0.02:
@@ -325,6 +401,12 @@ def cases(rng: random.Random, tier: str):
         out.append(c)
     if tier == "thorough":
         out += K.exhaustive_event_cases(2, 2)
+        # a slice beyond the caps of the quick tier: six nodes, up to five conjuncts, binary variables (the noise space stays small)
+        for _ in range(400):
+            g = K.rand_admg(rng, 6, 6)
+            ev = rng.choice([three_world_event, twin_event, lambda r_, g_: K.rand_event(r_, g_, max_worlds=3, max_items=5)])(rng, g)
+            out.append({"g": dict(g, nodes=rng.sample(G.all_nodes(g), len(G.all_nodes(g)))), "event": ev, "seed": rng.randrange(1 << 30),
+                        "binary": True})
     # the Python oracle against the Lean SPECIFICATION of "probability of a counterfactual event" (Y0/Spec/Fscm.lean)
     for _ in range(40 if tier == "quick" else 400):
         g = K.rand_admg(rng, 1, 4)
@@ -415,17 +497,18 @@ def _semantic(case, res, exc=None):
     ev = case["event"]
     if res == ["err"]:
         return f"construction raised {exc}: neither (graph, event) nor 'inconsistent' for an event in the property's domain"
+    mc = 2 if case.get("binary") else 3
     if res[1] == "inconsistent":
-        w = S.check_zero(g, ev, case.get("seed", 0))
+        w = S.check_zero(g, ev, case.get("seed", 0), max_card=mc)
         return None if w is None else f"'inconsistent' reported for an event of positive probability: {w}"
     s = _structure(res)
     if s:
         return s
-    s = S.check_parents_represented(g, ev, res[1][1], res[1][2], case.get("seed", 0))
+    s = S.check_parents_represented(g, ev, res[1][1], res[1][2], case.get("seed", 0), max_card=mc)
     if s:
         return s
     new_ev = [[[x if not isinstance(x, list) else x for x in var], val] for var, val in res[2]]
-    w = S.check_same_probability(g, ev, new_ev, case.get("seed", 0))
+    w = S.check_same_probability(g, ev, new_ev, case.get("seed", 0), max_card=mc)
     return None if w is None else f"relabelled event {new_ev} has another probability than the event: {w}"
 
 
